@@ -22,12 +22,15 @@ enum Item {
     JmpSelf,
     JrcxzSkip,
     CallNext,
+    /// discards a slot: after `call next; pop rax` the stack is empty again although a call
+    /// has not returned (the get-PC idiom) - whether a RET is top-level is decided by the stack
+    PopRax,
     Ret,
     Syscall,
     Int3,
     Invalid,
 }
-const ITEMS: [Item; 13] = [
+const ITEMS: [Item; 14] = [
     Item::Nop,
     Item::MovRax,
     Item::IncRcx,
@@ -37,6 +40,7 @@ const ITEMS: [Item; 13] = [
     Item::JmpSelf,
     Item::JrcxzSkip,
     Item::CallNext,
+    Item::PopRax,
     Item::Ret,
     Item::Syscall,
     Item::Int3,
@@ -45,7 +49,7 @@ const ITEMS: [Item; 13] = [
 
 fn item_len(i: Item) -> usize {
     match i {
-        Item::Nop | Item::Ret | Item::Int3 | Item::Invalid => 1,
+        Item::Nop | Item::Ret | Item::Int3 | Item::Invalid | Item::PopRax => 1,
         Item::MovRax => 7,
         Item::IncRcx => 3,
         Item::JmpNext | Item::JmpEnd | Item::JmpPastEnd | Item::JmpSelf | Item::JrcxzSkip | Item::Syscall => 2,
@@ -73,6 +77,7 @@ fn assemble(p: &[Item]) -> Vec<u8> {
                 out.extend_from_slice(&[0xE3, skip as u8]);
             }
             Item::CallNext => out.extend_from_slice(&[0xE8, 0, 0, 0, 0]),
+            Item::PopRax => out.push(0x58),
             Item::Ret => out.push(0xC3),
             Item::Syscall => out.extend_from_slice(&[0x0F, 0x05]),
             Item::Int3 => out.push(0xCC),
@@ -110,7 +115,7 @@ struct Cfg<'a> {
     prog: &'a [Item],
     code: &'a [u8],
     limit: Option<u64>,
-    stack: bool,
+    stack: Option<u64>,
     hooks: Hooks,
 }
 
@@ -121,8 +126,8 @@ fn build(c: &Cfg) -> Axecutor {
         ax.reg_write_128(crate::emu::XMM[k], crate::emu::filler_xmm(k)).unwrap();
     }
     ax.reg_write_64(SR::RCX, 0).unwrap();
-    if c.stack {
-        ax.init_stack(0x100).unwrap();
+    if let Some(len) = c.stack {
+        ax.init_stack(len).unwrap();
     }
     if let Some(l) = c.limit {
         ax.set_max_instructions(l);
@@ -203,6 +208,7 @@ fn model_run(c: &Cfg, viol: &mut Vec<(String, String)>, ctx: &str) -> (u64, u64)
     let mut ax = build(c);
     let end = BASE + c.code.len() as u64;
     let mut count: u64 = 0;
+    // 8-byte slots on the stack (pushes minus pops): a RET is top-level when it finds none
     let mut depth: i64 = 0;
     let mut transitions = 0u64;
     let mut states = 0u64;
@@ -284,13 +290,16 @@ fn model_run(c: &Cfg, viol: &mut Vec<(String, String)>, ctx: &str) -> (u64, u64)
             }
             FlowControl::Call => depth += 1,
             FlowControl::Return => {
-                if depth == 0 && c.stack {
+                if depth == 0 && c.stack.is_some() {
                     finish_expected = true;
                 } else {
                     depth -= 1;
                 }
             }
             _ => {}
+        }
+        if i.mnemonic() == Mnemonic::Pop {
+            depth -= 1;
         }
         if i.mnemonic() == Mnemonic::Syscall && c.hooks == Hooks::StopBeforeSyscall {
             finish_expected = true;
@@ -337,18 +346,19 @@ fn gen(maxlen: usize) -> impl Fn(&mut EnumCtx) + Sync {
     move |e: &mut EnumCtx| {
         let limits: [Option<u64>; 6] = [None, Some(0), Some(1), Some(2), Some(3), Some(5)];
         for len in 1..=maxlen {
-            let total = 12usize.pow(len as u32);
+            let total = ITEMS.len().pow(len as u32);
             for code_idx in 0..total {
                 let mut prog = vec![];
                 let mut rem = code_idx;
                 for _ in 0..len {
-                    prog.push(ITEMS[rem % 12]);
-                    rem /= 12;
+                    prog.push(ITEMS[rem % ITEMS.len()]);
+                    rem /= ITEMS.len();
                 }
                 let may_loop = prog.contains(&Item::JmpSelf);
                 let code = assemble(&prog);
                 for limit in limits {
-                    for stack in [false, true] {
+                    // 0x108: a length that is not a multiple of 16 (the initial RSP is aligned down)
+                    for stack in [None, Some(0x100u64), Some(0x108)] {
                         for hooks in [Hooks::None, Hooks::StopBeforeSyscall, Hooks::StopAfterNop] {
                             // hook configurations only matter for programs with that mnemonic
                             if hooks == Hooks::StopBeforeSyscall && !prog.contains(&Item::Syscall) {
@@ -360,7 +370,7 @@ fn gen(maxlen: usize) -> impl Fn(&mut EnumCtx) + Sync {
                             if !e.next() {
                                 continue;
                             }
-                            let ctx = format!("program {:?} limit {:?} stack {} hooks {:?}", prog, limit, stack, hooks);
+                            let ctx = format!("program {:?} limit {:?} stack {:?} hooks {:?}", prog, limit, stack, hooks);
                             e.describe("loop", &ctx);
                             let c = Cfg {
                                 prog: &prog,
